@@ -28,9 +28,24 @@ u8* __ir_exc_obj; u8* __ir_exc_type;
 void __ir_unreachable(void) { __CPROVER_assert(0, "IR unreachable executed"); __CPROVER_assume(0); }
 void __ir_trap(void) { __CPROVER_assert(0, "llvm.trap executed"); __CPROVER_assume(0); }
 void __ir_bad_indirect(void) { __CPROVER_assert(0, "unresolved indirect call target"); __CPROVER_assume(0); }
+/* constant length (translator knows it): CBMC's built-in array operations */
+u8* __ir_memcpy_c(u8* d, u8* s, u64 n) { if (n) memcpy(d, s, n); return d; }
+u8* __ir_memmove_c(u8* d, u8* s, u64 n) { if (n) memmove(d, s, n); return d; }
+u8* __ir_memset_c(u8* d, u8 c, u64 n) { if (n) memset(d, c, n); return d; }
+#ifdef NATIVE
 u8* __ir_memcpy(u8* d, u8* s, u64 n) { if (n) memcpy(d, s, n); return d; }
 u8* __ir_memmove(u8* d, u8* s, u64 n) { if (n) memmove(d, s, n); return d; }
 u8* __ir_memset(u8* d, u8 c, u64 n) { if (n) memset(d, c, n); return d; }
+#else
+/* dynamic length: bounded byte loops (array operations with a symbolic length stall CBMC's post-processing) */
+#ifndef VP_MEMMAX
+#define VP_MEMMAX 20
+#endif
+u8* __ir_memcpy(u8* d, u8* s, u64 n) { __CPROVER_assert(n <= VP_MEMMAX, "memcpy length within the harness bound VP_MEMMAX"); for (u64 i = 0; i < VP_MEMMAX; i++) if (i < n) d[i] = s[i]; return d; }
+u8* __ir_memmove(u8* d, u8* s, u64 n) { __CPROVER_assert(n <= VP_MEMMAX, "memmove length within the harness bound VP_MEMMAX");
+  u8 t_[VP_MEMMAX]; for (u64 i = 0; i < VP_MEMMAX; i++) if (i < n) t_[i] = s[i]; for (u64 i = 0; i < VP_MEMMAX; i++) if (i < n) d[i] = t_[i]; return d; }
+u8* __ir_memset(u8* d, u8 c, u64 n) { __CPROVER_assert(n <= VP_MEMMAX, "memset length within the harness bound VP_MEMMAX"); for (u64 i = 0; i < VP_MEMMAX; i++) if (i < n) d[i] = c; return d; }
+#endif
 void __ir_atomic_begin(void) {}
 void __ir_atomic_end(void) {}
 void __ir_fence(void) {}
@@ -135,7 +150,13 @@ void _ZSt24__throw_out_of_range_fmtPKcz(u8* f, ...) { (void)f; vp_throw_std(_ZTI
 void _ZSt17__throw_bad_allocv(void) { vp_throw_std(_ZTISt9bad_alloc); }
 void _ZSt25__throw_bad_function_callv(void) { vp_throw_std(_ZTISt17bad_function_call); }
 /* allocation: exact-size objects, failure out of scope */
+#ifdef VP_ALLOC_FIXED
+/* fixed-size blocks (a heap object of symbolic size makes CBMC's encoding explode): the request must fit; accesses between
+ * the requested size and VP_ALLOC_FIXED are then NOT reported by CBMC -- harnesses using this mode assert sizes functionally */
+u8* _Znwm(u64 n) { __CPROVER_assert(n <= VP_ALLOC_FIXED, "allocation request within the harness bound VP_ALLOC_FIXED"); u8* p = (u8*)malloc(VP_ALLOC_FIXED); __CPROVER_assume(p != 0); return p; }
+#else
 u8* _Znwm(u64 n) { u8* p = (u8*)malloc(n ? n : 1); __CPROVER_assume(p != 0); return p; }
+#endif
 u8* _Znam(u64 n) { u8* p = (u8*)malloc(n ? n : 1); __CPROVER_assume(p != 0); return p; }
 void _ZdlPv(u8* p) { (void)p; }
 void _ZdaPv(u8* p) { (void)p; }
